@@ -343,3 +343,12 @@ pub struct ReplayFile {
     pub original_steps: usize,
     pub minimise_executions: usize,
 }
+
+/// Display that is only formatted when a violation is actually reported (formatting every
+/// operation eagerly dominates the cost of a run, above all under Miri).
+pub struct Lazy<F: Fn() -> String>(pub F);
+impl<F: Fn() -> String> std::fmt::Display for Lazy<F> {
+    fn fmt(&self, f: &mut std::fmt::Formatter<'_>) -> std::fmt::Result {
+        f.write_str(&(self.0)())
+    }
+}
